@@ -253,6 +253,15 @@ class ExprMixin:
 
     # ------------------------------------------------------------------ arithmetic
     def ev_UnaryOp(self, e, st):
+        if getattr(st, "spec", False) and isinstance(e.op, ast.Not):
+            p = st.ghost.get("__pol__", 0)
+            st.ghost["__pol__"] = -p
+            try:
+                v = self.ev1(e.operand, st)
+            finally:
+                st.ghost["__pol__"] = p
+            yield V(BOOL, z3.Not(self.truth(v, st))), st
+            return
         for v, s in self.ev(e.operand, st):
             if isinstance(e.op, ast.Not):
                 yield V(BOOL, z3.Not(self.truth(v, s))), s
@@ -335,6 +344,16 @@ class ExprMixin:
 
     # ------------------------------------------------------------------ comparisons / boolean structure
     def ev_Compare(self, e, st):
+        if getattr(st, "spec", False):
+            p = st.ghost.get("__pol__", 0)
+            st.ghost["__pol__"] = 0
+            try:
+                vals = [self.ev1(x, st) for x in [e.left] + list(e.comparators)]
+            finally:
+                st.ghost["__pol__"] = p
+            conj = [self.compare(op, a, b, st, e) for op, a, b in zip(e.ops, vals, vals[1:])]
+            yield V(BOOL, z3.And(conj) if len(conj) > 1 else conj[0]), st
+            return
         for vals, s in self.ev_list([e.left] + list(e.comparators), st):
             conj = []
             for op, a, b in zip(e.ops, vals, vals[1:]):
@@ -441,8 +460,13 @@ class ExprMixin:
 
     def ev_IfExp(self, e, st):
         if getattr(st, "spec", False):
-            c = self.truth(self.ev1(e.test, st), st)
-            a, b = self.ev1(e.body, st), self.ev1(e.orelse, st)
+            p = st.ghost.get("__pol__", 0)
+            st.ghost["__pol__"] = 0
+            try:
+                c = self.truth(self.ev1(e.test, st), st)
+                a, b = self.ev1(e.body, st), self.ev1(e.orelse, st)
+            finally:
+                st.ghost["__pol__"] = p
             k = self.join_kind(a.kind, b.kind)
             yield V(k, z3.If(c, self.to_term(a, k), self.to_term(b, k))), st
             return
